@@ -153,9 +153,13 @@ func (hr *historyRepository) recordMiniblock(blockHeaderHash []byte, blockHeader
 		return err
 	}
 
-	if hr.hasRecentlyInsertedMiniblockMetadata(miniblockHash, epoch) {
+	if hr.hasRecentlyInsertedMiniblockMetadata(miniblockHash, blockHeaderHash, epoch) {
 		return nil
 	}
+
+	// the miniblock might have been recorded before, as part of a block that was dropped in the meantime.
+	// This has to be read before saving the new epoch of the miniblock
+	previousMetadata, errPrevious := hr.getMiniblockMetadataByMiniblockHash(miniblockHash)
 
 	err = hr.epochByHashIndex.saveEpochByHash(miniblockHash, epoch)
 	if err != nil {
@@ -173,12 +177,20 @@ func (hr *historyRepository) recordMiniblock(blockHeaderHash []byte, blockHeader
 		DestinationShardID: miniblock.GetReceiverShardID(),
 	}
 
+	if errPrevious == nil {
+		// the notarization notifications that were already applied must not be lost
+		miniblockMetadata.NotarizedAtSourceInMetaNonce = previousMetadata.NotarizedAtSourceInMetaNonce
+		miniblockMetadata.NotarizedAtSourceInMetaHash = previousMetadata.NotarizedAtSourceInMetaHash
+		miniblockMetadata.NotarizedAtDestinationInMetaNonce = previousMetadata.NotarizedAtDestinationInMetaNonce
+		miniblockMetadata.NotarizedAtDestinationInMetaHash = previousMetadata.NotarizedAtDestinationInMetaHash
+	}
+
 	err = hr.putMiniblockMetadata(miniblockHash, miniblockMetadata)
 	if err != nil {
 		return err
 	}
 
-	hr.markMiniblockMetadataAsRecentlyInserted(miniblockHash, epoch)
+	hr.markMiniblockMetadataAsRecentlyInserted(miniblockHash, blockHeaderHash, epoch)
 
 	for _, txHash := range miniblock.TxHashes {
 		errPut := hr.miniblockHashByTxHashIndex.Put(txHash, miniblockHash)
@@ -195,8 +207,8 @@ func (hr *historyRepository) computeMiniblockHash(miniblock *block.MiniBlock) ([
 	return core.CalculateHash(hr.marshalizer, hr.hasher, miniblock)
 }
 
-func (hr *historyRepository) hasRecentlyInsertedMiniblockMetadata(miniblockHash []byte, epoch uint32) bool {
-	key := hr.buildKeyOfDeduplicationCacheForInsertMiniblockMetadata(miniblockHash, epoch)
+func (hr *historyRepository) hasRecentlyInsertedMiniblockMetadata(miniblockHash []byte, blockHeaderHash []byte, epoch uint32) bool {
+	key := hr.buildKeyOfDeduplicationCacheForInsertMiniblockMetadata(miniblockHash, blockHeaderHash, epoch)
 	return hr.deduplicationCacheForInsertMiniblockMetadata.Has(key)
 }
 
@@ -204,12 +216,16 @@ func (hr *historyRepository) hasRecentlyInsertedMiniblockMetadata(miniblockHash 
 // - miniblock M added in a fork at the end of epoch E,
 // - miniblock M re-added, on the canonical chain this time, in the next epoch E + 1.
 // This way we do not mistakenly ignore to update the "epochByHashIndex".
-func (hr *historyRepository) buildKeyOfDeduplicationCacheForInsertMiniblockMetadata(miniblockHash []byte, epoch uint32) []byte {
-	return []byte(fmt.Sprintf("%d_%x", epoch, miniblockHash))
+// The hash of the containing block is taken into account as well, in order to handle this case:
+// - miniblock M added in a block that is dropped afterwards,
+// - miniblock M re-added, in the same epoch, in the block that replaces the dropped one.
+// This way the miniblock metadata refers the block that was committed last.
+func (hr *historyRepository) buildKeyOfDeduplicationCacheForInsertMiniblockMetadata(miniblockHash []byte, blockHeaderHash []byte, epoch uint32) []byte {
+	return []byte(fmt.Sprintf("%d_%x_%x", epoch, miniblockHash, blockHeaderHash))
 }
 
-func (hr *historyRepository) markMiniblockMetadataAsRecentlyInserted(miniblockHash []byte, epoch uint32) {
-	key := hr.buildKeyOfDeduplicationCacheForInsertMiniblockMetadata(miniblockHash, epoch)
+func (hr *historyRepository) markMiniblockMetadataAsRecentlyInserted(miniblockHash []byte, blockHeaderHash []byte, epoch uint32) {
+	key := hr.buildKeyOfDeduplicationCacheForInsertMiniblockMetadata(miniblockHash, blockHeaderHash, epoch)
 	_ = hr.deduplicationCacheForInsertMiniblockMetadata.Put(key, nil, 0)
 }
 
